@@ -207,8 +207,21 @@ def gen_unit(rng, uid, opts):
         if sl not in src and pkg_level(u.structs[k]["pkg"]) <= pkg_level(it["pkg"]):
             it["deps"] = it["deps"] + [sl]
             it["variadic"] = True
-            u.items.append({"kind": "arg", "outs": [sl], "deps": [], "id": new_id()})
+            if rng.random() < 0.5:
+                u.items.append({"kind": "arg", "outs": [sl], "deps": [], "id": new_id()})
+            else:
+                # a slice value: its variable name derives from no type name (`_wireValue`, `_wireValue2`, ...)
+                u.items.append({"kind": "value", "outs": [sl], "deps": [], "pkg": u.structs[k]["pkg"], "id": new_id()})
             src[sl] = len(u.items) - 1
+    # slice-typed dependencies of ordinary providers, provided by values
+    for it in [x for x in u.items if x["kind"] == "func" and "ret_conc" not in x and not x.get("variadic")]:
+        if rng.random() < opts.get("p_slice_value", 0.15):
+            k = rng.randrange(nS)
+            sl = ("s", k)
+            if sl not in src and pkg_level(u.structs[k]["pkg"]) <= pkg_level(it["pkg"]):
+                it["deps"] = it["deps"] + [sl]
+                u.items.append({"kind": "value", "outs": [sl], "deps": [], "pkg": u.structs[k]["pkg"], "id": new_id()})
+                src[sl] = len(u.items) - 1
     # --- sets ---------------------------------------------------------------------------------
     arg_items = [n for n, it in enumerate(u.items) if it["kind"] == "arg"]
     other = [n for n, it in enumerate(u.items) if it["kind"] != "arg"]
@@ -414,7 +427,8 @@ def materialise(prog):
                 if it["err"]:
                     res.append("error")
                 rsig = res[0] if len(res) == 1 else "(" + ", ".join(res) + ")"
-                q = '"%s.%s"' % (pkg, name)
+                label = "Prov%d" % it["id"]          # trace labels are logical names, whatever the function is called
+                q = '"%s.%s"' % (pkg, label)
                 dargs = "".join(", wtrace.D(a%d)" % n for n in range(len(it["deps"])))
                 conc = it.get("ret_conc", out)
                 k, i = conc
@@ -428,7 +442,7 @@ def materialise(prog):
                 if it["err"]:
                     r = [zero]
                     if it["cleanup"]:
-                        r.append('func() { wtrace.Log("BADCLEANUP %s.%s") }' % (pkg, name))
+                        r.append('func() { wtrace.Log("BADCLEANUP %s.%s") }' % (pkg, label))
                     r.append("err")
                     fail.append("\t\treturn " + ", ".join(r))
                 else:
@@ -445,7 +459,7 @@ def materialise(prog):
                         lines.append('\twtrace.Log("addr %s.%s " + wtrace.Addr(&v.%s))' % (st["name"], f, f))
                 r = ["v"]
                 if it["cleanup"]:
-                    r.append('func() { wtrace.Log(fmt.Sprintf("cleanup %s.%s #%%d", id)) }' % (pkg, name))
+                    r.append('func() { wtrace.Log(fmt.Sprintf("cleanup %s.%s #%%d", id)) }' % (pkg, label))
                 if it["err"]:
                     r.append("nil")
                 lines.append("\treturn " + ", ".join(r))
